@@ -33,6 +33,10 @@ pub fn c04_case(ctx: &mut Ctx, rng: &mut Rng, stage: &str) {
     let cfg = if miri { GenCfg { max_cats: 2, max_lex: 4, max_ids: 2, conn_kind: 0, ..Default::default() } } else { GenCfg::default() };
     let mut case = gen_tokcase(rng, &cfg, 6, !miri);
     case.opts.truncate(1);
+    if !miri && rng.chance(0.08) && widen_right_ids(rng, &mut case.spec, case.user.as_mut()) {
+        case.mapping = None;
+        ctx.bucket("more_than_4096_right_ids");
+    }
     // few distinct sentences: empty, one char, long, shorter-after-longer, all spaces
     case.sentences[0] = String::new();
     if case.sentences.len() > 2 {
@@ -72,7 +76,13 @@ pub fn c04_case(ctx: &mut Ctx, rng: &mut Rng, stage: &str) {
         c04_history(ctx, rng, &case, &tok, &expected, o);
     }
     let nthreads = if miri { 2 } else { 2 + rng.below(if ctx.thorough() { 15 } else { 7 }) };
-    c04_threads(ctx, rng, &case, &tok, &expected, o, nthreads, if miri { 3 } else { 24 });
+    // most workloads are short (many dictionaries); now and then a long one, so that workers of one tokenizer
+    // really run side by side for a while (state shared through the dictionary would show up here)
+    let long = !miri && stage != "tsan" && rng.chance(0.12);
+    if long {
+        ctx.bucket("long_thread_workload");
+    }
+    c04_threads(ctx, rng, &case, &tok, &expected, o, if long { 8 } else { nthreads }, if miri { 3 } else if long { 1500 } else { 24 });
 }
 
 fn c04_history(ctx: &mut Ctx, rng: &mut Rng, case: &TokCase, tok: &Tokenizer, expected: &[Vec<Tok>], o: Opts) {
@@ -271,12 +281,12 @@ fn c04_threads(ctx: &mut Ctx, rng: &mut Rng, case: &TokCase, tok: &Tokenizer, ex
 
 // ---------------------------------------------------------------- C12
 
-fn respace(rng: &mut Rng, s: &str) -> String {
+fn respace(rng: &mut Rng, s: &str, spaces: &[char]) -> String {
     // rewrite every space run to another non-zero length/composition; add/remove leading/trailing runs
-    let is_sp = |c: char| c == ' ' || c == '\u{3000}';
+    let is_sp = |c: char| spaces.contains(&c);
     let chars: Vec<char> = s.chars().collect();
     let mut out = String::new();
-    let run = |rng: &mut Rng| -> String { (0..1 + rng.below(4)).map(|_| if rng.chance(0.6) { ' ' } else { '\u{3000}' }).collect() };
+    let run = |rng: &mut Rng| -> String { (0..1 + rng.below(4)).map(|_| if rng.chance(0.5) { ' ' } else { *rng.pick(spaces) }).collect() };
     let mut i = 0;
     let n = chars.len();
     // strip leading/trailing runs, re-add at random
@@ -333,21 +343,46 @@ pub fn c12_case(ctx: &mut Ctx, rng: &mut Rng) {
     let mut cfg = GenCfg { clean_space: true, ..Default::default() };
     cfg.max_cats = 6;
     let mut case = gen_tokcase(rng, &cfg, 10, true);
-    if case.spec.cat_index("SPACE").is_none() || !is_clean_space(&case.spec, case.user.as_deref()) {
-        ctx.bucket("precondition_not_met_skipped");
-        return;
+    if case.spec.cat_index("SPACE").is_some() && rng.chance(0.3) {
+        // SPACE is whatever char.def says it is: give it a character that is not Unicode whitespace as well
+        // (its line comes last, so it belongs to SPACE alone), and keep it out of the lexicon surfaces
+        let e = ['Z', '-', '.', '2'][rng.below(4)];
+        let keep = |r: &LexRow| !r.surface.contains(e);
+        if case.spec.lex.iter().any(keep) {
+            case.spec.lex.retain(keep);
+            if let Some(u) = case.user.as_mut() {
+                u.retain(keep);
+            }
+            if case.user.as_ref().map_or(false, |u| u.is_empty()) {
+                case.user = None;
+            }
+            case.spec.ranges.push(Range { lo: e as u32, hi: e as u32, cats: vec![1] });
+        }
+    }
+    let spaces = match clean_space_set(&case.spec, case.user.as_deref()) {
+        Some(s) => s,
+        None => {
+            ctx.bucket("precondition_not_met_skipped");
+            return;
+        }
+    };
+    if spaces.iter().any(|c| !c.is_whitespace()) {
+        ctx.bucket("space_category_with_non_whitespace_character");
     }
     let o = Opts { ignore_space: true, mgl: case.opts[0].mgl };
     case.opts = vec![o];
-    // sentences with space runs in all three positions
+    // sentences with space runs in all three positions; and sentences whose only space characters are not
+    // Unicode whitespace
     for s in case.sentences.iter_mut() {
         if rng.chance(0.6) {
-            let chars: Vec<char> = s.chars().collect();
+            let only_odd = rng.chance(0.3);
+            let chars: Vec<char> = s.chars().filter(|c| !(only_odd && c.is_whitespace())).collect();
             let mut t = String::new();
             for c in chars {
                 t.push(c);
                 if rng.chance(0.3) {
-                    t.push(' ');
+                    let sp = *rng.pick(&spaces);
+                    t.push(if only_odd && sp.is_whitespace() { *spaces.last().unwrap() } else { sp });
                 }
             }
             *s = t;
@@ -374,7 +409,7 @@ pub fn c12_case(ctx: &mut Ctx, rng: &mut Rng) {
     ctx.bucket("dict_accepted");
     ctx.bucket(&format!("connector_{}", case.spec.conn.kind()));
     let refd = RefDict::new(&spec, user.as_deref());
-    let tok = match make_tokenizer(dict, o) {
+    let tok = match make_tokenizer_hist(dict, o, spec.cat_index("SPACE").is_some()) {
         Ok(t) => t,
         Err(e) => {
             ctx.violation("ignore_space_rejected_with_SPACE_defined", "C12:make_tokenizer", e, case.brief("", o));
@@ -382,7 +417,7 @@ pub fn c12_case(ctx: &mut Ctx, rng: &mut Rng) {
         }
     };
     let mut w = tok.new_worker();
-    let is_sp = |c: char| c == ' ' || c == '\u{3000}';
+    let is_sp = |c: char| spaces.contains(&c);
     for s in &case.sentences {
         let base = match tokenize(&mut w, s) {
             Ok(t) => t,
@@ -420,7 +455,7 @@ pub fn c12_case(ctx: &mut Ctx, rng: &mut Rng) {
         }
         let mut nvar = 0;
         for _ in 0..8 {
-            let v = respace(rng, s);
+            let v = respace(rng, s, &spaces);
             if v == *s {
                 continue;
             }
@@ -475,6 +510,58 @@ pub fn c12_case(ctx: &mut Ctx, rng: &mut Rng) {
 }
 
 // ---------------------------------------------------------------- C06
+
+/// A connector with 65536 right ids (65535 rows in bigram.right, which the raw connector supports): a valid
+/// mapping must be accepted, and the new id 65535 is an id like any other.
+pub fn c06_witness_65536_ids(ctx: &mut Ctx, prop: &str) {
+    let mut right = String::new();
+    for i in 1..=65535u32 {
+        right += &format!("{i}\t{}\n", if i == 65535 { "x" } else if i == 1 { "w" } else { "z" });
+    }
+    let conn = ConnTexts::Bigram { right: right.into_bytes(), left: b"1\ty\n".to_vec(), cost: b"x/y\t5\nz/y\t-3\nw/y\t11\n".to_vec(), dual: false };
+    let case = json!({"bigram.right": "65535 lines: `1<TAB>w`, `i<TAB>z`, `65535<TAB>x`", "bigram.left": "1\ty", "bigram.cost": "x/y\t5\nz/y\t-3\nw/y\t11", "lex.csv": "a,1,65535,0,A\nb,1,1,0,B", "mapping": "right: old i -> new 65536 - i; left: identity"});
+    let d = match build_from_texts(b"a,1,65535,0,A\nb,1,1,0,B\n", b"DEFAULT 0 1 0\n", b"DEFAULT,0,0,100,U\n", &conn) {
+        BuildOutcome::Ok(d) => d,
+        _ => {
+            ctx.note(format!("{prop} witness 65536 ids: dictionary not built"));
+            return;
+        }
+    };
+    ctx.eval();
+    // new id k is taken by old id 65536 - k
+    let ri: Vec<u16> = (1..=65535u32).map(|k| (65536 - k) as u16).collect();
+    let li: Vec<u16> = vec![1];
+    let key = format!("{prop}:witness:65536-right-ids");
+    let d = match guarded(move || d.map_connection_ids_from_iter(li, ri).map_err(|e| e.to_string())) {
+        Ok(Ok(d)) => d,
+        Ok(Err(e)) => {
+            ctx.violation("valid_mapping_rejected", &key, e, case);
+            return;
+        }
+        Err(p) => {
+            ctx.violation("mapping_panicked", &key, p, case);
+            return;
+        }
+    };
+    match guarded(|| (vibrato::verif::conn_cost(&d, 1, 1), vibrato::verif::conn_cost(&d, 2, 1), vibrato::verif::conn_cost(&d, 65535, 1))) {
+        Ok((5, -3, 11)) => {}
+        Ok(v) => {
+            ctx.violation("mapped_connector_differs", &key, format!("costs of new (1,1), (2,1), (65535,1) = {:?}, expected (5, -3, 11)", v), case);
+            return;
+        }
+        Err(p) => {
+            ctx.violation("mapped_connector_lookup_panicked", &key, p, case);
+            return;
+        }
+    }
+    let tok = Tokenizer::new(d);
+    let mut w = tok.new_worker();
+    match tokenize(&mut w, "ab") {
+        Ok(t) if t.len() == 2 && t[0].r == 1 && t[1].r == 65535 && t[1].total == 5 => ctx.bucket("witness_65536_right_ids_mapped_ok"),
+        Ok(t) => ctx.violation("mapped_tokens_differ", &key, format!("tokens of \"ab\": {:?}; expected a(r=1) b(r=65535), total 5", toks_brief(&t)), case),
+        Err(p) => ctx.violation("tokenize_panicked", &key, p, case),
+    }
+}
 
 #[derive(Clone, Debug)]
 enum MOp {
@@ -822,6 +909,10 @@ pub fn c08_case(ctx: &mut Ctx, rng: &mut Rng) {
             ("non_numeric_cost", "zz,0,0,c,X\n".to_string()),
             ("negative_id", "zz,-1,0,1,X\n".to_string()),
             ("cost_out_of_i16", "zz,0,0,40000,X\n".to_string()),
+            // ids that do not fit 16 bits and are valid modulo 65536
+            ("left_id_beyond_u16", format!("zz,{},0,1,X\n", 65536 * (1 + rng.below(3)) + rng.below(nl))),
+            ("right_id_beyond_u16", format!("zz,0,{},1,X\n", 65536 * (1 + rng.below(3)) + rng.below(nr))),
+            ("cost_beyond_i16_wrapping_to_valid", format!("zz,0,0,{},X\n", 65536 + rng.below(100))),
         ];
         for (name, csv) in bad_rows {
             let d = match mk(ctx) {
